@@ -13,6 +13,7 @@ Three layers:
 -/
 import SideVerif.Layer.Routing
 import SideVerif.Proofs.Reagg
+import SideVerif.Proofs.RoutedGlue
 import SideVerif.Properties.C09
 namespace SideVerif
 open Sql Cal Reagg
@@ -179,6 +180,40 @@ theorem C08_max_from_rollup_partial (e : Row → Val) (k1 : Row → κ₁) (h : 
       (oneLevel k1 h keep (fun g => AggFn.max.apply (g.map e)) l) := max_reaggregates e k1 h keep l hnum
 end
 
+/-! ### (3) end to end on the relational evaluator (partial: one SUM / COUNT measure, rollup with a time key, no filters)
+
+The three statements involved are evaluated by the same relational evaluator (`RQuery.body`, the one the behavioural
+correspondence compares with DuckDB): the materialization (keys `K1`: the time dimension truncated to the rollup's
+granularity and the stored dimensions), the routed statement over the rollup's rows (keys `K2`: `DATE_TRUNC(G, <time>_<P>)`
+or the bare column, and stored dimension columns) and the base-table statement (keys `Kd`).  Whenever the regenerated
+compatibility table accepts (G, P), the routed rows are a permutation of the base-table rows — for EVERY table. -/
+
+theorem C08_routed_rows_are_base_rows_sum_partial (s : RollupShape) (q : Requested) (e : Expr) (out : String)
+    (tb tr : Source) (hn : s.A.Nodup) (hraw : s.raw ∉ s.A) (hsel : ∀ d ∈ q.sel, d ∈ s.dims)
+    (hc : ∀ G, q.G = some G → Gen.compat G s.P = true) (rows : List Row) :
+    (RQuery.body { table := tr, keys := s.K2 q, aggs := [(.agg .sum (.col s.raw), out)], filt := [] }
+        (RQuery.body { table := tb, keys := s.K1, aggs := [(.agg .sum e, s.raw)] } rows)).Perm
+      (RQuery.body { table := tb, keys := s.Kd q, aggs := [(.agg .sum e, out)], filt := [] } rows) := by
+  have H := readsRollup_of_shape s q hn hraw hsel (fun G hG => C09_compat_sound G s.P (hc G hG))
+    (fun g => AggFn.sum.apply (g.map e.eval)) rows
+  rw [mat_rows tb s.K1 (by simp [RollupShape.K1])]
+  rw [routed_rows s.K1 (s.K2 q) (s.Kd q) [] [] s.raw out _ _ tr (by simp [RollupShape.K2]) _ rows .sum H]
+  rw [direct_rows s.K1 (s.K2 q) (s.Kd q) [] [] s.raw out _ _ tb (by simp [RollupShape.Kd]) .sum e _ rows H]
+  exact (sum_reaggregates e.eval _ _ _ rows).map _
+
+theorem C08_routed_rows_are_base_rows_count_partial (s : RollupShape) (q : Requested) (e : Expr) (out : String)
+    (tb tr : Source) (hn : s.A.Nodup) (hraw : s.raw ∉ s.A) (hsel : ∀ d ∈ q.sel, d ∈ s.dims)
+    (hc : ∀ G, q.G = some G → Gen.compat G s.P = true) (rows : List Row) :
+    (RQuery.body { table := tr, keys := s.K2 q, aggs := [(.coalesce (.agg .sum (.col s.raw)) (.lit (.num 0)), out)], filt := [] }
+        (RQuery.body { table := tb, keys := s.K1, aggs := [(.agg .count e, s.raw)] } rows)).Perm
+      (RQuery.body { table := tb, keys := s.Kd q, aggs := [(.agg .count e, out)], filt := [] } rows) := by
+  have H := readsRollup_of_shape s q hn hraw hsel (fun G hG => C09_compat_sound G s.P (hc G hG))
+    (fun g => AggFn.count.apply (g.map e.eval)) rows
+  rw [mat_rows tb s.K1 (by simp [RollupShape.K1])]
+  rw [routed_rows_coalesce0 s.K1 (s.K2 q) (s.Kd q) [] [] s.raw out _ _ tr (by simp [RollupShape.K2]) _ rows H]
+  rw [direct_rows s.K1 (s.K2 q) (s.Kd q) [] [] s.raw out _ _ tb (by simp [RollupShape.Kd]) .count e _ rows H]
+  exact (count_reaggregates e.eval _ _ _ rows).map _
+
 /-- F9 (known finding), proved: with `AVG(x)` stored per bucket, `SUM(avg_raw) / SUM(count_raw)` is not the average
 (buckets {1, 3} and {5}: (2 + 5) / 3 vs 3) -/
 theorem C08_avg_of_bucket_averages_counterexample :
@@ -202,6 +237,41 @@ example : route exModel [exWeekly] { metrics := ["orders.revenue"], dims := ["or
   decide +kernel
 /-- two granularities, one of them finer than the rollup: not routed (was F10) -/
 example : route exModel [exDaily] { metrics := ["orders.revenue"], dims := ["orders.created__hour", "orders.created__month"] } = none := by
+  decide +kernel
+
+end SideVerif
+
+namespace SideVerif
+open Sql Cal Reagg
+
+/-- the materialization statement of the routing model has the key shape of (3): the time dimension truncated to the
+rollup's granularity under the alias `<time>_<granularity>`, then the stored dimensions under their own names -/
+theorem C08_matQuery_has_shape (m : SModel) (pa : PreAgg) (tn gs : String) (G : Gran) (d : Dim)
+    (ht : pa.timeDim = some tn) (hg : pa.gran = some gs) (hn1 : tn ≠ "") (hn2 : gs ≠ "")
+    (hG : Gran.ofStr? gs = some G) (hd : m.dim? tn = some d) (raw : String) :
+    (matQuery m pa).keys =
+      RollupShape.K1 { ta := tn ++ "_" ++ gs, te := rawExpr d.sqlExpr, P := G, raw := raw,
+                       dims := pa.dims.filterMap fun dn => (m.dim? dn).map fun d => (dn, rawExpr d.sqlExpr) } := by
+  have t1 : truthy (some tn) = true := by simpa [truthy] using hn1
+  have t2 : truthy (some gs) = true := by simpa [truthy] using hn2
+  simp only [matQuery, ht, hg, t1, t2, Bool.and_self, if_true, Option.getD_some, hd, hG, RollupShape.K1, List.cons_append,
+    List.nil_append, List.cons.injEq, true_and, List.map_filterMap]
+  congr 1
+  funext dn
+  cases m.dim? dn <;> rfl
+
+/-! the shapes of (3) are the ones the routing model produces: the daily rollup of the example model, a month query -/
+def exShape : RollupShape :=
+  { ta := "created_day", te := .col "created", P := .day, dims := [("status", .col "status")], raw := "revenue_raw" }
+def exReq : Requested := { G := some .month, qa := "created__month", sel := [("status", .col "status")] }
+
+example : (matQuery exModel exDaily).keys = exShape.K1 ∧ (matQuery exModel exDaily).aggs = [(.agg .sum (.col "amount"), exShape.raw)] := by
+  decide +kernel
+example : (routedQuery exModel exDaily { metrics := ["orders.revenue"], dims := ["orders.created__month", "orders.status"] }).keys = exShape.K2 exReq ∧
+    (routedQuery exModel exDaily { metrics := ["orders.revenue"], dims := ["orders.created__month", "orders.status"] }).aggs =
+      [(.agg .sum (.col exShape.raw), "revenue")] := by
+  decide +kernel
+example : exShape.A.Nodup ∧ exShape.raw ∉ exShape.A ∧ (∀ d ∈ exReq.sel, d ∈ exShape.dims) ∧ Gen.compat .month .day = true := by
   decide +kernel
 
 end SideVerif
